@@ -1,3 +1,4 @@
+import RNacos.Model.Namespace
 import RNacos.Driver.Util
 /-
 Line protocol of model `apply` (C07/C01): three complete nodes fed the same committed requests.
@@ -7,21 +8,52 @@ the specification oracle judges the relation the properties state: the three nod
 namespace RNacos.Driver.ApplyDrv
 open RNacos.Driver
 
-def step (_ : Unit) (ws : List String) : Unit × String :=
+/-- the model's state: the namespace component of the node that never stops (`L`), driven by the committed namespace
+requests.  (The other components are parameters of the theorems; their dumps are wildcards.) -/
+abbrev MSt := RNacos.Namespace.State
+
+def nsId (a : Nat) : String := s!"ns{a % 5}"
+
+/-- the namespace request that `mkreq` builds for a generated request -/
+def nsReq (kind : String) (a b : Nat) : Option RNacos.Namespace.Req :=
+  match kind with
+  | "nsset" => some (.set (nsId a) (some s!"name{b}"))
+  | "nsadd" => some (.addOnly (nsId a) (some s!"name{b}"))
+  | "nsupd" => some (.update (nsId a) (some s!"name{b}"))
+  | "nsdel" => some (.delete (nsId a))
+  | _ => none
+
+/-- what the node serves for user namespaces, as the harness prints it: hash of the sorted `id:name` list, `#`, count -/
+def nsDump (s : MSt) : String :=
+  let l := ((RNacos.Namespace.userList s).map fun e => s!"{e.1}:{e.2}").mergeSort (· ≤ ·)
+  s!"{fnvStr (";".intercalate l)}#{l.length}"
+
+def step (s : MSt) (ws : List String) : MSt × String :=
   match ws with
-  | ["start"] => ((), "ok")
-  | "req" :: _ => ((), "req L=* F=queued R=*")
-  | "reqd" :: _ => ((), "reqd id=* mark=* L=* F=queued R=*")
-  | "flush" :: _ => ((), "flush *")
-  | ["compact", _] => ((), "compact ok")
-  | ["halfcompact", _] => ((), "halfcompact ok")
-  | ["restart", _] => ((), "restarted ready applied=* next=*")
-  | ["crash", _] => ((), "restarted ready applied=* next=*")
-  | ["dump"] => ((), "dump L=* F=* R=*")
-  | ["dumpn"] => ((), "dumpn behind=* LM=* NM=* L=* N=*")
-  | ["install", _, _] => ((), "install *")
-  | ["catchup", _] => ((), "catchup ok")
-  | _ => ((), "bad-op")
+  | ["start"] => (RNacos.Namespace.initial, "ok")
+  | ["req", kind, a, b] =>
+    let an := a.toNat?.getD 0
+    let bn := b.toNat?.getD 0
+    let s' := match nsReq kind an bn with
+      | some r => RNacos.Namespace.apply s r
+      | none =>
+        -- a publish into the tenant of a user namespace (`mkreq`: every third one) makes the config actor announce the
+        -- namespace as in use: on the leader path (every request awaited) that has happened before the next request
+        if (kind == "cfgset" || kind == "cfgfull") && bn % 3 == 2 then RNacos.Namespace.setWeak s (nsId an) RNacos.Namespace.fConfig
+        else s
+    (s', "req L=* F=queued R=*")
+  | "req" :: _ => (s, "req L=* F=queued R=*")
+  | "reqd" :: _ => (s, "reqd id=* mark=* L=* F=queued R=*")
+  | "flush" :: _ => (s, "flush *")
+  | ["compact", _] => (s, "compact ok")
+  | ["halfcompact", _] => (s, "halfcompact ok")
+  | ["restart", _] => (s, "restarted ready applied=* next=*")
+  | ["crash", _] => (s, "restarted ready applied=* next=*")
+  | ["dump"] => (s, s!"dump nsL={nsDump s} L=* F=* R=*")
+  | ["dumpn"] => (s, "dumpn behind=* LM=* NM=* L=* N=*")
+  | ["install", _, _] => (s, "install *")
+  | ["catchup", _] => (s, "catchup ok")
+  | _ => (s, "bad-op")
 
 structure SpecSt where
   pending : List String := []
